@@ -176,6 +176,28 @@ impl WalManager {
         Ok(manager)
     }
 
+    /// Verification builds only (`cargo kani`): a manager around an already open log file,
+    /// without touching the directory (no create_dir_all / read_dir / open).
+    #[cfg(kani)]
+    pub fn verif_with_file(dir: PathBuf, config: WalConfig, file: File, size: u64, last_sync: Instant) -> Self {
+        let path = dir.clone();
+        Self {
+            dir,
+            config,
+            active_log: Mutex::new(Some(LogFile {
+                writer: BufWriter::new(file),
+                size,
+                path,
+                sequence: 0,
+            })),
+            total_record_count: AtomicU64::new(0),
+            records_since_sync: AtomicU64::new(0),
+            last_sync: Mutex::new(last_sync),
+            current_sequence: AtomicU64::new(0),
+            checkpoint_epoch: Mutex::new(None),
+        }
+    }
+
     /// Logs a record to the WAL.
     ///
     /// # Errors
